@@ -220,7 +220,25 @@ class Fake:
 _lock = threading.Lock()
 
 
-def run_case(n, par, max_tasks, fail_ids, tolerate, choices, consumer_delays, use_run=False, max_steps=None, unpicklable_ids=()):
+class TwoArgError(Exception):
+    pass
+
+
+def task_error(kind, x):
+    """the exceptions tasks fail with: differently shaped .args (a syscall error has two, some have none); all name the id"""
+    k = kind % 5
+    if k == 0:
+        return ValueError("boom-%s" % x)
+    if k == 1:
+        return FileNotFoundError(2, "boom-%s" % x)
+    if k == 2:
+        return KeyError("boom-%s" % x)
+    if k == 3:
+        return TwoArgError("boom-%s" % x, {"code": 7})
+    return UnicodeDecodeError("utf-8", b"boom-%d" % x, 0, 1, "boom-%s" % x)
+
+
+def run_case(n, par, max_tasks, fail_ids, tolerate, choices, consumer_delays, use_run=False, max_steps=None, unpicklable_ids=(), fail_kind=0):
     """runs Parallel(f).irun(range(n)) under the schedule; returns a dict describing the outcome"""
     import annet.parallel as P
     logging.disable(logging.CRITICAL)
@@ -243,7 +261,7 @@ def run_case(n, par, max_tasks, fail_ids, tolerate, choices, consumer_delays, us
 
     def f(x):
         if x in fail_ids:
-            raise ValueError("boom-%s" % x)
+            raise task_error(fail_kind + x, x)
         if x in unpicklable_ids:
             return {"value": x * 2 + 1, "render": (lambda: x)}   # a container holding something that cannot be pickled
         return x * 2 + 1
